@@ -174,3 +174,63 @@ func H09_HeaderWidth() {
 	verif.Assert(rerr == nil && bytes.Equal(serialised(r), orig), "reassembly is byte-identical")
 	verif.Reach("end")
 }
+
+// H09_BlockMix: every mix of the four extension block kinds hop count, bundle age, previous node and an unknown type -
+// each absent, present, or present with the replicate flag (81 mixes, so up to four replicated blocks) - with block
+// numbers that are not consecutive, a 24-byte symbolic payload, CRC-16 on the extension blocks and every limit from
+// "header only" to "fits": the same obligations as H09_Fragment (sizes, partition, extension blocks in the first / in
+// every fragment, parser acceptance, byte-identical reassembly in both orders). Split into shards by mix.
+func H09_BlockMix() {
+	pb := PrimaryBlock{Version: dtnVersion, CRCType: CRC32, CreationTimestamp: NewCreationTimestamp(DtnTime(tsAlive), 1), Lifetime: 1000}
+	pb.Destination, pb.SourceNode, pb.ReportTo = symEID("", 4, false), symEID("", 1, false), DtnNone()
+	mix := verif.Choose("mix", 81)
+	if shards := verif.Param("shards", 1); shards > 1 {
+		verif.Assume(mix%shards == verif.Param("shard", 0))
+	}
+	var cbs []CanonicalBlock
+	vals := []ExtensionBlock{&HopCountBlock{Limit: 9, Count: verif.U8("hc")}, NewBundleAgeBlock(symU64w("age", false)),
+		NewPreviousNodeBlock(symEID("", 5, false)), NewGenericExtensionBlock(verif.Bytes("gd", 2), 77)}
+	numbers := []uint64{9, 3, 6, 4}
+	m := mix
+	for k := 0; k < 4; k++ {
+		switch m % 3 {
+		case 1:
+			cbs = append(cbs, CanonicalBlock{BlockNumber: numbers[k], CRCType: CRC16, Value: vals[k]})
+		case 2:
+			cbs = append(cbs, CanonicalBlock{BlockNumber: numbers[k], BlockControlFlags: ReplicateBlock, CRCType: CRC16, Value: vals[k]})
+		}
+		m /= 3
+	}
+	n := verif.Param("payload", 24)
+	cbs = append(cbs, CanonicalBlock{BlockNumber: 1, Value: NewPayloadBlock(verif.Bytes("pl", n))})
+	b := MustNewBundle(pb, cbs)
+	verif.Assume(b.CheckValid() == nil)
+	orig := serialised(b)
+	mtu := verif.Size("mtu", len(orig)-n, len(orig))
+	fs, err := b.Fragment(mtu)
+	if err != nil {
+		verif.Reach("refused")
+		verif.Assert(len(orig) > mtu, "a bundle that fits is not refused")
+		return
+	}
+	verif.Assert(len(fs) > 0, "never an empty list")
+	if len(orig) <= mtu {
+		verif.Assert(len(fs) == 1 && bytes.Equal(serialised(fs[0]), orig), "a bundle that already fits is returned as itself")
+		verif.Reach("end")
+		return
+	}
+	verif.Reach("fragmented")
+	checkFragments(b, fs, mtu, orig)
+	for _, rev := range []bool{false, true} {
+		in := append([]Bundle{}, fs...)
+		if rev {
+			for i, j := 0, len(in)-1; i < j; i, j = i+1, j-1 {
+				in[i], in[j] = in[j], in[i]
+			}
+		}
+		r, rerr := ReassembleFragments(in)
+		verif.Assert(rerr == nil, "reassembling all fragments succeeds")
+		verif.Assert(bytes.Equal(serialised(r), orig), "reassembled bundle serialises byte-identically to the original")
+	}
+	verif.Reach("end")
+}
